@@ -480,7 +480,69 @@ def run_pair(col, stt, pc, H, modes, brute_every=0, counter=None, size=0, roots=
                         col.exclude(detail)
                         continue
                     col.violation(bucket, detail, case_json(pc, vi, host, root, remove, mode), size=size or (len(pc.pat["nodes"]) * 100 + hv.n))
+    if len(pc.pat["outs"]) > 1 and hv.n >= 2:
+        e2, nt2 = _edited_in_place(col, stt, pc, H, size)
+        evals += e2
+        any_nt = any_nt or nt2
     stt.triples += evals
+    return evals, any_nt
+
+
+def _edit_candidates(pat, host):
+    """1 -> 1 edits of the host (node count unchanged): a node takes the operator of one of the pattern's nodes with the same arity and
+    attribute-free form, so that an instance appears or disappears."""
+    pops = []
+    for pn in pat["nodes"]:
+        if pn.get("op") and not pn.get("dom") and pn["op"] not in pops:
+            pops.append(pn["op"])
+    out = []
+    for j, n in enumerate(host["nodes"]):
+        if n["dom"] or n["attrs"] or n["op"] == "Constant":
+            continue
+        for op in pops:
+            if op != n["op"] and op != "Constant":
+                out.append((j, op))
+    return out[:3]
+
+
+def _edited_in_place(col, stt, pc, H, size, only=None):
+    """History step for patterns with several output nodes: the SAME pattern objects have just been matched against this graph object;
+    now one node's operator is changed in place and every root is matched again - the verdicts must be those of the spec matcher on the
+    edited graph (whatever a matcher remembers about a graph between two calls must not outlive an edit)."""
+    import copy
+
+    evals, any_nt = 0, False
+    host0 = H.ast
+    for (j, op) in ([only] if only else _edit_candidates(pc.pat, host0)):
+        ast2 = copy.deepcopy(host0)
+        ast2["nodes"][j]["op"] = op
+        old = H.nodes[j].op_type
+        H.nodes[j].op_type = op
+        try:
+            hv2 = ps.HostView(ast2)
+            for vi, (pobj, view) in enumerate(zip(pc.impl, pc.views)):
+                for root in range(hv2.n):
+                    sols, best = ps.solve(view, hv2, root)
+                    obs = observe(pobj, H, root, False)
+                    verdicts, has, nt = judge(view, hv2, obs, sols, best, False, hv2.gouts, root)
+                    evals += 1
+                    any_nt = any_nt or nt
+                    stt.hist["edited_in_place"] += 1
+                    for bucket, detail in verdicts:
+                        if bucket == "__excluded__":
+                            col.exclude(detail)
+                            continue
+                        cj = case_json(pc, vi, ast2, root, False, ("base", None))
+                        # the same verdict on a freshly built graph with fresh pattern objects is not a matter of history: it is reported
+                        # (and attributed) like any other case
+                        fresh_v = [b for b, _ in replay(dict(cj))]
+                        if bucket in fresh_v:
+                            col.violation(bucket, detail, cj, size=size or (len(pc.pat["nodes"]) * 100 + hv2.n))
+                            continue
+                        cj["history"] = {"host_before": host0, "edit": [j, op]}
+                        col.violation("after_in_place_edit:" + bucket, detail, cj, size=size or (len(pc.pat["nodes"]) * 100 + hv2.n))
+        finally:
+            H.nodes[j].op_type = old
     return evals, any_nt
 
 
@@ -758,6 +820,28 @@ def replay(case):
         return [(f"raise:{where}:{_exc_key(pc.error)}", repr(pc.error)[:300])]
     if pc.commute and len(pc.impl) != len(pc.views):
         return [("commute:variant-count", f"{len(pc.impl)} rules for {len(pc.views)} variants")]
+    if case.get("history"):
+        # re-enact: match every root of the host as it was, edit in place, match again
+        hb = case["history"]["host_before"]
+        H = ps.Host(hb)
+        for pobj in pc.impl:
+            for r0 in range(H.view.n):
+                observe(pobj, H, r0, False)
+
+        class _Col:
+            def __init__(self):
+                self.v = []
+
+            def exclude(self, d):
+                pass
+
+            def violation(self, b, d, c, size=0):
+                if c["root"] == case["root"] and c.get("variant", 0) == case.get("variant", 0):
+                    self.v.append((b, d))
+
+        cc = _Col()
+        _edited_in_place(cc, Stats(), pc, H, 0, only=tuple(case["history"]["edit"]))
+        return cc.v
     H = ps.Host(host)
     vi = case.get("variant", 0)
     view, pobj = pc.views[vi], pc.impl[vi]
